@@ -7,7 +7,8 @@ from . import core
 from .refs import pep440 as P
 from .refs import semver as S
 
-DIRT_KINDS = ["clean", "modified", "staged_new", "untracked", "ignored_only", "deleted", "staged_modified"]
+DIRT_KINDS = ["clean", "modified", "staged_new", "untracked", "ignored_only", "deleted", "staged_modified", "staged_then_reverted", "staged_new_then_deleted",
+              "untracked_in_subdir"]
 
 
 class GitError(Exception):
@@ -95,7 +96,7 @@ class Repo:
         return True
 
     def checkout(self, name):
-        self.git("checkout", "-q", name)
+        self.git("switch", "-q", name)       # `switch` only considers branches (a tag may carry the same name)
         self.head = ("branch", name)
         self.ops.append("checkout %s" % name)
 
@@ -112,7 +113,7 @@ class Repo:
         if h in self.anc(o):
             # fast-forward possible: do a real ff half of the time
             if self.rng.random() < 0.5:
-                self.git("merge", "-q", "--ff-only", other)
+                self.git("merge", "-q", "--ff-only", "refs/heads/" + other)
                 if self.head[0] == "branch":
                     self.branches[self.head[1]] = o
                 else:
@@ -120,7 +121,7 @@ class Repo:
                 self.ops.append("ff-merge %s" % other)
                 return True
         ct, at = self.rand_time(), self.rand_time()
-        self.git("merge", "-q", "--no-ff", "-m", "merge %s" % other, other, env={"GIT_COMMITTER_DATE": "%d +0000" % ct, "GIT_AUTHOR_DATE": "%d +0000" % at})
+        self.git("merge", "-q", "--no-ff", "-m", "merge %s" % other, "refs/heads/" + other, env={"GIT_COMMITTER_DATE": "%d +0000" % ct, "GIT_AUTHOR_DATE": "%d +0000" % at})
         sha = self.git("rev-parse", "HEAD")
         cid = len(self.commits)
         self.commits.append(dict(id=cid, parents=[h, o], ctime=ct, atime=at, sha=sha))
@@ -180,6 +181,26 @@ class Repo:
             return False
         if kind == "deleted":
             os.remove(os.path.join(p, "tracked.txt"))
+            return True
+        if kind == "staged_then_reverted":
+            # index differs from HEAD, work tree equals HEAD again (`MM`): something is staged -> dirty
+            orig = open(os.path.join(p, "tracked.txt")).read()
+            with open(os.path.join(p, "tracked.txt"), "a") as f:
+                f.write("staged only\n")
+            self.git("add", "tracked.txt")
+            with open(os.path.join(p, "tracked.txt"), "w") as f:
+                f.write(orig)
+            return True
+        if kind == "staged_new_then_deleted":
+            with open(os.path.join(p, "ghost.txt"), "w") as f:
+                f.write("x\n")
+            self.git("add", "ghost.txt")
+            os.remove(os.path.join(p, "ghost.txt"))
+            return True
+        if kind == "untracked_in_subdir":
+            os.makedirs(os.path.join(p, "newdir", "deep"), exist_ok=True)
+            with open(os.path.join(p, "newdir", "deep", "u.txt"), "w") as f:
+                f.write("x\n")
             return True
         raise KeyError(kind)
 
@@ -283,7 +304,10 @@ def build_random(path, rng, nops):
                     cid = rng.choice(r.commits)["id"]          # any commit, possibly unreachable from HEAD
                 elif kk < 0.5 and r.tags:
                     cid = rng.choice(r.tags)["cid"]             # another tag on an already tagged commit
-                if not r.tag(rand_tag(rng), cid, annotated=rng.random() < 0.4):
+                name = rand_tag(rng)
+                if rng.random() < 0.06:
+                    name = rng.choice(sorted(r.branches))      # a (non-version) tag that shares its name with a branch
+                if not r.tag(name, cid, annotated=rng.random() < 0.4):
                     continue
             else:
                 r.detach(rng.choice(r.commits)["id"])
